@@ -97,6 +97,9 @@ func (prop) Generate(rng *core.Rand, tier string, emit func(string)) {
 	for c := 0; c < n/20; c++ {
 		genZoo(rng.Fork(), emit)
 	}
+	for c := 0; c < n/4; c++ {
+		genRewrite(rng.Fork(), emit)
+	}
 	for c := 0; c < n; c++ {
 		var sb strings.Builder
 		np := rng.Intn(9)
@@ -242,6 +245,9 @@ func (prop) Run(line string) core.Outcome {
 	}
 	if len(f) == 9 && f[0] == "http2" {
 		return runHTTP2(line, f)
+	}
+	if len(f) == 5 && f[0] == "httprw" {
+		return runRewrite(line, f)
 	}
 	if len(f) == 7 && f[0] == "httpm" {
 		return runMatcher(line, f)
